@@ -606,6 +606,9 @@ func (self *LockManager) AddLock(lock *Lock) *Lock {
 		if lock.command.TimeoutFlag&protocol.TIMEOUT_FLAG_REQUIRE_ACKED != 0 {
 			lock.ackCount = 0
 		}
+		if lock.aofTime == 0xff {
+			lock.ackCount = 0xff
+		}
 	}
 
 	if self.currentLock == nil {
